@@ -139,7 +139,7 @@ def rndNewObjs (g : GenSt) (n : Nat) (kind : Nat) (gens : Bool) :
           let (sn, hn) := if sw == 0 then (a, b) else (b, a)
           let (o, r) := rndStmObj r sn 0 (some hn)
           let (h, r) := holderObj r hn (dataLen o)
-          (objs ++ [o, h], cands, { r, next := g.next + 2, known := g.known ++ [⟨sn, 0, false, true⟩, ⟨hn, 0, false, true⟩] })
+          (objs ++ [o, h], cands, { r, next := g.next + 2, known := g.known ++ [⟨sn, 0, false, true⟩] })   -- (the holder is not edited later: the stream depends on it)
         else
           let (o, r) := rndStmObj r g.next 0 none
           (objs ++ [o], cands, { r, next := g.next + 1, known := g.known ++ [⟨g.next, 0, false, true⟩] })
@@ -182,6 +182,8 @@ def rndBase (g : GenSt) (kind : Nat) (hiddenGen : Nat) : Rev × GenSt :=
   let xnum := g.next
   let g := { g with r, next := if kind == 0 then g.next else g.next + 1 }
   let (lay, r) := rndLay g.r kind xnum hiddenGen
+  -- (a PNG predictor over zero rows is rejected by the predictor code: keep an empty hybrid stream plain)
+  let lay := if kind == 2 && mems.isEmpty then { lay with up := false } else lay
   -- root: any user object
   let (ri, r) := r.nat g.known.length
   let rk := g.known[ri]?.getD default
@@ -214,11 +216,14 @@ def rndUpdate (g : GenSt) (kind : Nat) (allowBump allowMember : Bool) (root : Do
         else (objs, frees, touched, g))
     ([], [], [], g)
   let (na, r) := g.r.nat 3
+  -- an update mentions at least one object (a table needs at least one subsection)
+  let na := if objs.isEmpty && frees.isEmpty && na == 0 then 1 else na
   let (newObjs, mems, g) := rndNewObjs { g with r } na kind false
   let (objs, r) := shuffleL (objs ++ newObjs) g.r
   let xnum := g.next
   let g := { g with r, next := if kind == 0 then g.next else g.next + 1 }
   let (lay, r) := rndLay g.r kind xnum 65535
+  let lay := if kind == 2 && mems.isEmpty then { lay with up := false } else lay
   ({ objs, members := mems, frees, zero := false, root, lay }, { g with r })
 
 def rndGarbage (r : Rng) : Bytes × Rng :=
